@@ -3,7 +3,7 @@
    nat, positive, N, Z stay Coq datatypes.  No Extract Constant directives.
    Run coqc with the ocaml/ directory as working directory (files land in the cwd). *)
 From Coq Require Import Extraction ExtrOcamlBasic.
-From TV Require Import Base Index AP Iter Mult Mem Spec Guards Run Ops Reduce Shapeops Linalg Pool RunZ.
+From TV Require Import Base Index AP Iter Mult Mem Spec Guards Run Ops Reduce Shapeops Linalg Pool RunZ Serial.
 Extraction Language OCaml.
 Extraction "model.ml"
   size dot rank_rm rank_cm unrank coords inboxb
@@ -15,4 +15,5 @@ Extraction "model.ml"
   get_t is_materializable requires_iterator is_cm is_nc is_tr
   guard_op flag_soundb meta_inv_obs guard_slice
   step_model step_spec zstep_model zstep_spec zguard zreduce_axes_after
-  empty_pstate pstep_T pstep_UT pstep_transpose p_slices obs_model inv_model obs_spec ntens_model ntens_spec empty_store empty_sstate.
+  empty_pstate pstep_T pstep_UT pstep_transpose p_slices obs_model inv_model obs_spec ntens_model ntens_spec empty_store empty_sstate
+  window ser_model tv_logical tv_logical_mask tv_masked carries_mask print_shape parse_shape.
